@@ -38,7 +38,7 @@ func constTripLoops(fn *ssa.Function) map[*ssa.BasicBlock]*tripLoop {
 				latch = append(latch, p)
 			}
 		}
-		if len(latch) != 1 {
+		if len(latch) == 0 {
 			continue
 		}
 		iff, ok := h.Instrs[len(h.Instrs)-1].(*ssa.If)
@@ -94,7 +94,7 @@ func constTripLoops(fn *ssa.Function) map[*ssa.BasicBlock]*tripLoop {
 		}
 		// body: blocks that reach the latch without passing through h, reachable from h
 		body := map[*ssa.BasicBlock]bool{h: true}
-		st := []*ssa.BasicBlock{latch[0]}
+		st := append([]*ssa.BasicBlock(nil), latch...)
 		for len(st) > 0 {
 			x := st[len(st)-1]
 			st = st[:len(st)-1]
